@@ -105,6 +105,16 @@ public:
         }
         return "";
     }
+    // ... and for the handles that mutated their entity and are kept until after close() (ops::outlive)
+    std::string mutating_handles(const obs::Node &fresh_tree) {
+        std::map<std::string, std::string> fresh = obs::own_lines(fresh_tree), kept = obs::own_lines(ops::outlive, oopt);
+        for (auto &kv : kept) {
+            auto it = fresh.find(kv.first);
+            if (it == fresh.end()) continue;
+            if (it->second != kv.second) return kv.first.substr(0, kv.first.find(':')) + "|handle that made the changes: " + kv.second + "fresh handle: " + it->second;
+        }
+        return "";
+    }
     uint64_t key_of(const std::string &canon_text, bool fresh) { return vf::fnv(obs::symbolize(canon_text) + (fresh ? "|F" : "|S")); }
     // State key.  The observation alone identifies a state only at a session boundary (nothing but the file carries
     // state then).  Inside a session the library object may carry hidden state (caches), which depends on WHICH
